@@ -511,6 +511,15 @@ def gen_links():
         scenario("link-%02d" % i, "link", doc(page_css(220, 150, 10) + BASE, para(words("w", 6)), '<title>D%d</title><meta name=dcterms.created content="%s"><meta name=dcterms.modified content="%s">' % (i, val, val)),
                  expect=dict(margin=True, page_w=220, page_h=150, meta={"Title": "D%d" % i, "DateCreation": want, "DateModification": want}, line_height=12))
 
+    # link-11: date strings at the edges of the W3C profile (long fractions, odd offsets, out-of-range fields): no expectation on
+    # the forwarded value, the readers must survive
+    odd_dates = ["2011-04-21T23:00:00.33333333333333333333Z", "2011-04-21T23:00:00.5+14:00", "2011-04-21T23:00:00,5Z", "2011-13-41T25:61:61Z", "2011-04-21T23:00-03:30", "2011-04-21T23Z", "20110421", "2011-04-21T23:00:00+99:99",
+                 "99999-01-01", "0000-00-00T00:00:00Z", "2011-04-21T23:00:00.Z", "2011-04-21 23:00:00", "-2011-04-21", "2011-04-21T23:00:00+0", "T23:00", ""]
+    for i, d1 in enumerate(odd_dates):
+        d2 = odd_dates[(i * 7 + 3) % len(odd_dates)]
+        scenario("link-%d" % (11 + i), "link", doc(page_css(220, 150, 10) + BASE, para(words("w", 4)), '<title>O%d</title><meta name=dcterms.created content="%s"><meta name=dcterms.modified content="%s"><meta name="DCTERMS.Created" content="%s">' % (i, d1, d2, d2)),
+                 expect=dict(margin=True, page_w=220, page_h=150, meta={"Title": "O%d" % i}, line_height=12))
+
     # attachments: <link rel=attachment>, <a rel=attachment>
     css = page_css(220, 150, 10) + BASE
     body = [para(words("w", 10)), '<p><a rel=attachment href="att1.txt">w011</a> w012 <a rel=attachment href="missing.bin">w013</a> <a rel=attachment href="att1.txt">w012b</a></p>', para(words("w", 30, 14))]
@@ -556,7 +565,7 @@ def gen_res():
         "sub/e.css": ('.e { margin-left: 5px; background: url(../dot.png) }\n', dict(mime="text/css", kind="css")),
         "dot.png": (png(2, 2, (200, 0, 0)), dict(mime="image/png", kind="image")),
     }
-    scenario("res-01", "res", doc(css0, '<div class="b c d e">%s</div>' % text, '<link rel=stylesheet href="a.css">'), files=files, expect=dict(exp0))
+    scenario("res-01", "res", doc(css0, '<div class="b c d e">%s</div>' % text, '<link rel=stylesheet href="a.css"><link rel=stylesheet media="print," href="a.css"><link rel=stylesheet media=", print" href="dot.png"><style media="screen,,print">p { color: #123 }</style><style media=",">p { color: #124 }</style><style media="">p { color: #125 }</style><style media=" , , ">p { color: #126 }</style>'), files=files, expect=dict(exp0))
 
     # 02: @import cycle a <-> b, and self import
     files = {
@@ -678,11 +687,12 @@ def gen_res():
     oddcss = ('.q1 { font: 12px / } .q2 { font: 12px /; color: red } .q3 { font: / ahem } .q4 { string-set: a content(), ; bookmark-label: , } .q5 { margin: 1px 2px 3px 4px 5px; padding: / } '
               '@page :nth(of a) { margin: 1px } @page :nth( ) { margin: 1px } @page :nth(2n + ) { margin: 2px } @page x:first:first:blank { size: } .q6 { transform: rotate() scale(,) ; grid-area: / / / ; content: counter() counters(,) attr() } '
               '.q7 { background: url( ; } .q8 { quotes: "a"; font-family: , ; counter-reset: a b c 1 2 ; transition: } @media { p { color: blue } } @media ( { } @font-face { src: ; unicode-range: u+ } @counter-style { } @counter-style x { system: ; symbols: ; additive-symbols: 0 }\n'
+              '.q19 { color:/* a *//* b *//* c */!important; margin: 1px /* x */ /* y */ ! /* z */ important; padding: 1px/**/!/**/important/**/; width: /**/ } '
               '.q16 { font-size: 2ex } .q17 { font-size: 1ch } .q18 { font-size: 1.5rem; width: 3ex; height: 2ch; line-height: 2ex } @font-face { font-family: ff1; src: format("woff") } @font-face { font-family: ff2; src: format() } @font-face { font-family: ff3; src: local() format("truetype"), url() } '
               '.q9 { font: normal } .q10 { font: normal normal normal normal } .q11 { font: italic } .q12 { font: normal small-caps } '
               'html { --cy: var(--cy); --ca: var(--cb); --cb: var(--ca, 3px); --ok: 5px; --d: var(--d, 4px) } .q13 { width: var(--cy); margin-left: var(--ca); padding-left: var(--d) } '
               '.q14 { margin-left: calc(1px + calc(var(--ok))); background: linear-gradient(rgb(var(--ok), 0, 0), blue); border-left: var(--none, var(--ok)) solid } .q15 { margin: var(--cy) var(--ok) var() var(1) var(--) }\n')
-    body = ("<style>%s</style><p>%s</p>" % (oddcss, pars) + '<table><colgroup span="99999999999999"></colgroup><colgroup><col span="99999999999999"><col span="1001"></colgroup><tr><td class="q1 q2 q3 q4 q5 q6 q7 q8 q9 q10 q11 q12 q13 q14 q15">o000</td><td class=q16>o0a</td><td class=q17>o0b</td><td class=q18>o0c</td></tr></table>' +'<table><colgroup><col span="0"><col span="x"></colgroup><tr><td colspan="0">o001</td><td rowspan="0">o002</td><td colspan="abc" rowspan="-1">o003</td><td colspan="1000">o004</td></tr><tr><td>o005</td></tr></table>'
+    body = ("<style>%s</style><p>%s</p>" % (oddcss, pars) + '<table><colgroup span="99999999999999"></colgroup><colgroup><col span="99999999999999"><col span="1001"></colgroup><tr><td class="q1 q2 q3 q4 q5 q6 q7 q8 q9 q10 q11 q12 q13 q14 q15">o000</td><td class=q19 style="color:/* a *//* b *//* c */!important;/**/;margin:/*x*/1px/*y*//*z*/!important">o0d</td><td class=q16>o0a</td><td class=q17>o0b</td><td class=q18>o0c</td></tr></table>' +'<table><colgroup><col span="0"><col span="x"></colgroup><tr><td colspan="0">o001</td><td rowspan="0">o002</td><td colspan="abc" rowspan="-1">o003</td><td colspan="1000">o004</td></tr><tr><td>o005</td></tr></table>'
             '<ol start="x" reversed><li value="z">o006</li><li>o007</li></ol><ol start="-3"><li>o008</li></ol>'
             '<p><img src="odd.svg" alt="alt1" width="-" height="1e"> <img src="odd.svg" width="0" height="0" alt="alt2"> <font size="+9" color="#zz">o009</font> <font size="">o010</font></p>'
             '<hr size="x" width="50%%"><pre width="0">o011</pre><p align="bogus" dir="x" lang="">o012</p>' + text)
@@ -761,7 +771,7 @@ def gen_hyph():
         body = '<p lang="%s">%s</p><p lang="%s">%s</p>' % (lang, t, lang, " ".join(reversed(t.split())))
         scenario("hyph-%02d" % i, "hyph", doc(css, body), expect=dict(page_w=200, page_h=150, margin=True, group="hyph"), engines=["pango", "gotext"] if lang == "en" else ["pango"])
     css = page_css(200, 150, 10) + "html, body { margin: 0; font-family: ahem; font-size: 8px; line-height: 10px }\np { margin: 0 0 10px 0; hyphens: auto; width: 150px }\n"
-    body = "".join('<p lang="%s">%s</p>' % (l, t) for l, t in sorted(texts.items()))
+    body = "".join('<p lang="%s">%s</p>' % (l, t) for l, t in sorted(texts.items())) + '<p>%s</p><p>anticonstitutionnellement extraordinairement</p>' % texts["en"]
     scenario("hyph-04", "hyph", doc(css, body), expect=dict(page_w=200, page_h=150, margin=True, group="hyph"))
     # a dictionary with NON-STANDARD hyphenation points (hungarian "vissza" breaks as "visz-sza"): the lookup rewrites
     # the word around the break, from data held in the process-wide dictionary cache
@@ -984,12 +994,13 @@ def gen_geo():
         ".z9 { width: 20px; height: 20px; border-radius: 1000px; border: 1px solid black } .z10 { width: 40px; height: 0; border-top: 1px dotted black } .z11 { width: 40px; height: 10px; background: repeating-linear-gradient(red, blue 0px) }\n"
         ".z12 { width: 40px; height: 10px; background: url(dot.png) 0 0 / 0 0 } .z13 { width: 40px; height: 10px; border: 3px dashed transparent; border-image: linear-gradient(red, blue) 1 } .z14 { letter-spacing: -10px; word-spacing: -10px }\n"
         ".z19 { width: 3px; height: 3px; background: url(big.png) round } .z20 { width: 30px; height: 3px; background: url(big.png) round space } .z21 { width: 3px; height: 30px; background: url(big.png) space round }\n"
+        ".z22 { width: 4px; height: 4px; border: 10px solid; border-image: url(b30.png) 10 round } .z23 { width: 0; height: 30px; border: 10px solid; border-image: url(b30.png) 10 round space } .z24 { width: 14px; height: 1px; border: 10px solid; border-image: url(b30.png) 10 space round } .z25 { width: 3px; height: 3px; border: 5px solid; border-image: url(b30.png) 14 repeat; border-image-width: 2 } .z26 { width: 4px; height: 4px; border: 10px solid; border-image: url(b30.png) 15 fill round }\n"
         ".z15 { width: 40px; line-height: 0 } .z16 { padding: 0; margin: -5px 0; height: 0 } a.z17 { display: inline-block; width: 0; height: 0 } .z18 { transform: matrix(0, 0, 0, 0, 0, 0) }\n")
     W = words("w", 22)
     body = "".join('<div class="z%d">%s</div>' % (i + 1, W[i]) for i in range(16))
-    body += '<div class=z19></div><div class=z20></div><div class=z21></div>'
+    body += '<div class=z19></div><div class=z20></div><div class=z21></div><div class=z22></div><div class=z23></div><div class=z24></div><div class=z25></div><div class=z26></div>'
     body += '<p><a class=z17 href="#t1" id=t0>%s</a> <a class=z4 href="#t0" id=t1>%s</a> <a class=z18 href="#t0">%s</a></p>' % tuple(W[16:19]) + para(W[19:])
-    scenario("geo-02", "geo", doc(css, body, "<title>Geo</title>"), files={"dot.png": (png(2, 2, (200, 0, 0)), dict(mime="image/png", kind="image")), "big.png": (png(8, 8, (0, 100, 0)), dict(mime="image/png", kind="image"))},
+    scenario("geo-02", "geo", doc(css, body, "<title>Geo</title>"), files={"dot.png": (png(2, 2, (200, 0, 0)), dict(mime="image/png", kind="image")), "big.png": (png(8, 8, (0, 100, 0)), dict(mime="image/png", kind="image")), "b30.png": (png(30, 30, (0, 0, 150)), dict(mime="image/png", kind="image"))},
              expect=dict(margin=True, page_w=300, page_h=220, meta={"Title": "Geo"}, line_height=12))
 
     # clip/paint paths for boxes that generate no border dash / no cell / no content
@@ -1349,6 +1360,13 @@ def gen_wave3():
     W = words("w", 60)
     body = '<p class=j>%s</p><p class=j>%s</p>' % (" ".join(W[26:36]), " ".join(W[36:44])) + para(W[:8])
     scenario("rew-02", "rew", doc(css, body), expect=dict(page_w=220, page_h=150, line_height=12, group="rew"))
+    # rew-03 / rew-04: documents with web fonts of DIFFERENT family names, in the same group: what the font configuration
+    # registered for one must not show in the other
+    for n, (fam, fontfile) in enumerate([("wfa", "AHEM____.TTF"), ("wfb", "weasyprint.otf")], start=3):
+        css = ("@page { size: 220px 150px; margin: 20px }\n" + BASE + "@font-face { font-family: %s; src: url(font%d.bin) }\n.w { font-family: %s, ahem }\n" % (fam, n, fam))
+        W = words("w", 12)
+        scenario("rew-%02d" % n, "rew", doc(css, '<p class=w>%s</p>' % " ".join(W[:6]) + para(W[6:])), files={"font%d.bin" % n: (resfile(fontfile), dict(mime="font/ttf", kind="font"))},
+                 expect=dict(page_w=220, page_h=150, line_height=12, group="rew", sentinels=W[6:]))
 
     # an SVG served under a redirected URL that refers to itself by its original URL, and a redirected stylesheet
     # whose relative references must be resolved against the redirected URL
@@ -1451,12 +1469,12 @@ def gen_wave4():
     # oof-19: fixed and absolute boxes inside blocks that are cancelled and moved to the next page (break-inside: avoid,
     # orphans / widows): each fixed box is drawn once per page, each absolute box once. 7 lines per page; every case starts
     # a page, F filler lines, then a 3-line block whose FIRST line holds the positioned box and which does not fit
-    css = page_css(220, 106, 10) + BASE + "p { margin: 0; orphans: 2; widows: 2 }\n.av { break-inside: avoid }\n.np { break-before: page }\n.fx { position: fixed; top: 0; left: 150px }\n.fy { position: fixed; top: 12px; left: 150px }\n.ab { position: absolute; left: 150px }\n"
+    css = page_css(220, 106, 10) + BASE + "p { margin: 0; orphans: 2; widows: 2 }\n.av { break-inside: avoid }\n.np { break-before: page }\n.fx { position: fixed; top: 0; left: 150px }\n.fy { position: fixed; top: 12px; left: 150px }\n.fz { position: fixed; top: 24px; left: 150px }\n.fv { position: fixed; top: 36px; left: 150px }\n.rel { position: relative }\n.ab { position: absolute; left: 150px }\n"
     body, flow = [], []
     wi = 1
     rep = []
     flows = {}
-    for k, fill in enumerate([5, 6, 5, 6, 4]):
+    for k, fill in enumerate([5, 6, 5, 6, 4, 5, 6]):
         for j in range(fill):
             ws = words("w", 3, wi); wi += 3; flow += ws
             body.append(para(ws, 'class=np' if j == 0 else ""))
@@ -1465,10 +1483,18 @@ def gen_wave4():
             extra = '<span class=fx>x001</span>'; rep.append("x001")
         elif k == 1:
             extra = '<span class=fy>y001</span>'; rep.append("y001")
+        elif k == 5:
+            extra = '<span class=fz>z001</span>'; rep.append("z001")
+        elif k == 6:
+            extra = '<span class=fv>v001</span>'; rep.append("v001")
         else:
             extra = '<span class=ab>a%03d</span>' % k; flows["abs%d" % k] = ["a%03d" % k]
         inner = '<p>%s %s<br>%s<br>%s</p>' % (" ".join(ws[:3]), extra, " ".join(ws[3:6]), " ".join(ws[6:]))
-        body.append(('<div class=av>%s</div>' % inner) if k % 2 == 0 else inner)
+        if k >= 5:  # the same two cases inside a relatively positioned ancestor
+            inner = '<div class=rel>%s</div>' % (('<div class=av>%s</div>' % inner) if k % 2 == 1 else inner)
+            body.append(inner)
+        else:
+            body.append(('<div class=av>%s</div>' % inner) if k % 2 == 0 else inner)
     flows["main"] = flow
     scenario("oof-19", "oof", doc(css, "\n".join(body)), expect=dict(flows=flows, repeat=rep, repeat_once_per_page=True, margin=True, page_w=220, page_h=106, conserve=True, line_height=12))
 
@@ -1554,6 +1580,65 @@ def gen_wave4():
         mid = html_ if html_ else '<div style="%s">e001 e002</div>' % decl
         scenario("edge-%02d" % i, "edge", doc(page_css(220, 150, 10) + BASE, para(W[:4]) + mid + para(W[4:])),
                  expect=dict(margin=True, page_w=220, page_h=150, line_height=12, sentinels=W[:4], legacy_attrs=bool(html_)))
+
+    # pag-31: nested blocks whose bottom border / padding close at the page bottom, at every phase: an outer block with bottom
+    # decoration holding an inner break-inside: avoid block of 3 lines, after F filler lines (10 lines fit a page)
+    css = page_css(220, 150, 10) + BASE + "p { margin: 0; orphans: 1; widows: 1 }\n.np { break-before: page }\n.ob { border-bottom: 6px solid black; padding-bottom: 8px }\n.in { break-inside: avoid }\n"
+    body, flow, keep = [], [], []
+    wi = 1
+    for F in range(0, 10):
+        for j in range(F + 1):
+            ws = words("w", 2, wi); wi += 2; flow += ws
+            body.append(para(ws, 'class=np' if j == 0 else ""))
+        inner = []
+        grp = []
+        for _ in range(3):
+            ws = words("w", 2, wi); wi += 2; flow += ws; grp += ws
+            inner.append(para(ws))
+        keep.append(grp)
+        tail = words("w", 2, wi); wi += 2; flow += tail
+        body.append('<div class=ob><div class=in>%s</div>%s</div>' % ("".join(inner), para(tail)))
+    scenario("pag-31", "pag", doc(css, "\n".join(body)), expect=dict(flows={"main": flow}, margin=True, page_w=220, page_h=150, conserve=True, geometry=True, fits_page=True, line_height=12, keep_together=keep))
+
+    # pag-30: a page box with different top and bottom borders and paddings: the size given to AddPage is the declared one, the lines
+    # stay inside the content box (140 - 20 margins - 15 border - 5 padding = 100px = 8 lines) and the pages are full
+    css = ("@page { size: 160px 140px; margin: 10px; border-top: 15px solid black; padding-bottom: 5px; @bottom-center { content: \"pg\" counter(page) \"of\" counter(pages); font-family: ahem; font-size: 8px; line-height: 8px } }\n" + BASE + "p { margin: 0; orphans: 1; widows: 1 }\n")
+    body, flow, paras = [], [], []
+    wi = 1
+    for k in (21, 30, 17, 26):
+        ws = words("w", k, wi); wi += k; flow += ws; paras.append(ws)
+        body.append(para(ws))
+    scenario("pag-30", "pag", doc(css, "\n".join(body)), expect=dict(flows={"main": flow}, margin=True, page_w=160, page_h=140, conserve=True, geometry=True, fits_page=True, line_height=12, paras=paras, orphans=1, widows=1, fill_pages=True))
+
+    # ow-06: positioned / stacking inline boxes (relative, opacity, transform) holding a nested inline, in narrow paragraphs, so that
+    # line and page breaks fall inside and right after the nested inline at every position
+    css = page_css(150, 106, 10) + BASE + "p { margin: 0 0 12px 0; orphans: 1; widows: 1; width: 100px }\n.r1 { position: relative; top: 1px } .r2 { opacity: 0.5 } .r3 { transform: translate(1px, 0); display: inline-block } .r4 { position: relative; z-index: 2 }\n"
+    body, flow, flows = [], [], {}
+    wi = 1
+    for k in range(12):
+        ws = words("w", 9, wi); wi += 9
+        a = k % 4
+        # positioned boxes are painted after the normal flow of their stacking context: their words form flows of their own
+        flow += ws[:a] + ws[a + 5:]; flows["pos%d" % k] = ws[a:a + 5]
+        toks = ws[:a] + ['<span class=r%d>%s' % (1 + k % 4 if k % 4 != 2 else 1, ws[a])] + [ws[a + 1]] + ['<b>' + ws[a + 2]] + [ws[a + 3]] + [ws[a + 4] + '</b></span>'] + ws[a + 5:]
+        body.append("<p>%s</p>" % " ".join(toks))
+    flows["main"] = flow
+    scenario("ow-06", "ow", doc(css, "\n".join(body)), expect=dict(flows=flows, margin=True, page_w=150, page_h=106, conserve=True, line_height=12))
+
+    # table-04: separated borders with vertical spacing, a row that has to be split across pages after a short first row: the first
+    # lines of the split row belong on the first page
+    css = page_css(220, 116, 10) + BASE + "table { border-collapse: separate; border-spacing: 0 4px; width: 200px; margin: 0 } td { padding: 0; vertical-align: top }\np { margin: 0; orphans: 1; widows: 1 }\n"
+    flows, same = {}, []
+    tables = []
+    wi = 1
+    for t, nlines in enumerate([8, 12]):
+        r1 = words("w", 2, wi); wi += 2
+        cell = words("w", nlines, wi); wi += nlines
+        r3 = words("w", 2, wi); wi += 2
+        flows["t%d_r1" % t] = r1; flows["t%d_r2" % t] = cell; flows["t%d_r3" % t] = r3
+        same.append([r1[0], cell[0]])
+        tables.append('<table style="break-before: page"><tr><td>%s</td></tr><tr><td>%s</td></tr><tr><td>%s</td></tr></table>' % (" ".join(r1), "<br>".join(cell), " ".join(r3)))
+    scenario("table-04", "table", doc(css, "".join(tables)), expect=dict(flows=flows, margin=True, page_w=220, page_h=116, conserve=True, line_height=12, same_page=same))
 
 def gen_reach():
     # documents aimed at range-over-map sites the evidence listed as never visited with >= 2 keys
